@@ -421,3 +421,22 @@ def run_case(ctx, i, rng):
         else:
             parents = random_hier(rng, rng.randint(3, 7))
         check_config(ctx, parents, rng, i * 16 + c)
+
+
+def finalize(merged, tier):
+    """Report whether the exhaustive sub-space was really covered."""
+    kmax = EXHAUSTIVE_K[tier]
+    expected = sum(count_hier(k) for k in range(0, kmax + 1))
+    got = merged['counters'].get('hier_exhaustive', 0)
+    done = got == expected and not merged['truncated']
+    out = {'coverage': {
+        'exhaustive': done,
+        'exhaustive_subspace': (
+            f'all hierarchies of <= {kmax + 1} namespaces (root + {kmax}), '
+            f'as ordered parent lists over a topologically ordered DAG: '
+            f'{expected} hierarchies; larger ones sampled'),
+    }}
+    if not done:
+        out['inconclusive'] = (
+            f'exhaustive sub-space not covered: {got} of {expected}')
+    return out
